@@ -1984,6 +1984,20 @@ func gaRecvParam(fd *ast.FuncDecl) (string, string, bool) {
 func goastFunc(k gaKernel) string {
 	f := gaParse(filepath.Join(k.dir, k.file))
 	fd := gaFindFunc(f, k.name)
+	if fd == nil {
+		// the declaration may have moved to another file of the package: look it up by
+		// package (non-test files of a default build, as load.go sees them)
+		if p := loadPkg(k.dir); p != nil {
+			for _, pf := range p.files {
+				if g := gaParse(pf.rel); g != nil {
+					if gd := gaFindFunc(g, k.name); gd != nil {
+						f, fd = g, gd
+						break
+					}
+				}
+			}
+		}
+	}
 	head := fmt.Sprintf("(* %s/%s: func %s *)\nDefinition %s : func :=\n", k.dir, k.file, k.name, k.coqName())
 	if fd == nil || fd.Body == nil {
 		return head + "  {| f_nparams := 0; f_nvars := 0; f_outs := []; f_body := SUnsupported \"function not found\" |}.\n"
